@@ -7,7 +7,7 @@
 (* says the results and the state must be in exp, the logged values in     *)
 (* obs, and the invariant Conforms compares them.  Nothing is inferred     *)
 (* from the plan; nothing but arguments is taken from the trace.           *)
-EXTENDS ApiSponge, ApiCpp, ApiKdf, ApiHex, ApiByteArray, Conc, Json, IOUtils, TLC
+EXTENDS ApiSponge, ApiCpp, ApiKdf, ApiHex, ApiByteArray, ApiPrng, Conc, Json, IOUtils, TLC
 
 T == ndJsonDeserialize(IOEnv.TRACE)
 
@@ -272,7 +272,45 @@ TrIsapKeyDec == IsEv("isapkey.dec") /\ LET ev == T[l]  pk == Pk(ev) IN
 TrIsapKeyFree == IsEv("isapkey.free") /\ LET ev == T[l] IN Step(Del(ev.obj), <<>>, <<>>)
 
 IsapNext == TrIsapKeyInit \/ TrIsapKeyLoad \/ TrIsapKeySave \/ TrIsapKeyEnc \/ TrIsapKeyDec \/ TrIsapKeyFree
-PrngNext == FALSE
+(* C15: SpongePRNG.  The trace carries the draws the wrapped system source *)
+(* handed out during the call; the spec says how many there must be.       *)
+PrSt(o)    == <<o.xof.s.d, o.xof.count, o.xof.mode, o.counter>>
+PrStEv(ev) == <<ev.s40, ev.count, ev.mode, ev.counter>>
+PrSet(ev, o) == Put(ev.obj, [kind |-> "prng", xof |-> o.xof, counter |-> o.counter])
+PrO(ev) == [xof |-> objs[ev.obj].xof, counter |-> objs[ev.obj].counter]
+NoDraw == [ok |-> 0, bytes |-> Zeros(32)]
+DrawOf(ev, i) == IF Len(ev.draws) >= i THEN [ok |-> ev.draws[i].ok, bytes |-> ev.draws[i].bytes] ELSE NoDraw
+DrawsWellFormed(ev) == \A i \in DOMAIN ev.draws : ev.draws[i].n = 32
+
+TrPrngInit == IsEv("prng.init") /\ LET ev == T[l]  r == PrngInit(DrawOf(ev, 1)) IN
+  Step(PrSet(ev, r.o), <<PrSt(r.o), IF r.ret # 0 THEN 1 ELSE 0, 1, TRUE>>, <<PrStEv(ev), ev.ret, Len(ev.draws), DrawsWellFormed(ev)>>)
+TrPrngFetch == IsEv("prng.fetch") /\ LET ev == T[l]  r == PrngFetch(PrO(ev), ev.n, PrngLimit, DrawOf(ev, 1)) IN
+  IF ev.n <= 600
+  THEN Step(PrSet(ev, r.o), <<PrSt(r.o), r.out, r.used, 1>>, <<PrStEv(ev), ev.out, Len(ev.draws), ev.guard>>)
+  ELSE Step(PrSet(ev, r.o), <<PrSt(r.o), Slice(r.out, 0, 64), Slice(r.out, ev.n - 64, 64), r.used, 1>>,
+                            <<PrStEv(ev), ev.head, ev.tail, Len(ev.draws), ev.guard>>)
+TrPrngFeed == IsEv("prng.feed") /\ LET ev == T[l]  o == PrngFeed(PrO(ev), ev["in"]) IN
+  Step(PrSet(ev, o), <<PrSt(o), 0>>, <<PrStEv(ev), Len(ev.draws)>>)
+TrPrngReseed == IsEv("prng.reseed") /\ LET ev == T[l]  r == PrngReseed(PrO(ev), DrawOf(ev, 1)) IN
+  Step(PrSet(ev, r.o), <<PrSt(r.o), IF r.ret # 0 THEN 1 ELSE 0, 1>>, <<PrStEv(ev), ev.ret, Len(ev.draws)>>)
+TrPrngPoke == IsEv("prng.poke") /\ LET ev == T[l] IN
+  Step(PrSet(ev, [PrO(ev) EXCEPT !.counter = ev.counter]), <<>>, <<>>)
+TrPrngSave == IsEv("prng.save") /\ LET ev == T[l]  r == PrngSave(PrO(ev), PrngLimit, DrawOf(ev, 1), ev.size, ev.wres) IN
+  IF ev.size < 32 THEN Step(objs, <<PrSt(r.o), -1, 0, 0>>, <<PrStEv(ev), ev.ret, ev.writes, Len(ev.draws)>>)
+  ELSE Step(PrSet(ev, r.o), <<PrSt(r.o), r.ret, r.written, 1, 0, r.used>>, <<PrStEv(ev), ev.ret, ev.written, ev.writes, ev.woff, Len(ev.draws)>>)
+TrPrngLoad == IsEv("prng.load") /\ LET ev == T[l]
+      r == PrngLoad(PrO(ev), PrngLimit, <<DrawOf(ev, 1)>>, ev.size, ev.rres, ev.rbytes) IN
+  IF ev.size < 32 THEN Step(objs, <<PrSt(r.o), -1, 0, 0>>, <<PrStEv(ev), ev.ret, ev.writes + ev.reads, Len(ev.draws)>>)
+  ELSE Step(PrSet(ev, r.o), <<PrSt(r.o), r.ret, r.written, 1, 1, 1>>, <<PrStEv(ev), ev.ret, ev.written, ev.reads, ev.writes, Len(ev.draws)>>)
+\* documented conveniences for a NULL state: init 0, reseed 0, save/load -1, nothing drawn
+TrPrngNull == IsEv("prng.null") /\ LET ev == T[l] IN
+  Step(objs, <<0, 0, -1, -1, 0>>, <<ev.init, ev.reseed, ev.save, ev.load, Len(ev.draws)>>)
+TrPrngGlobal == IsEv("prng.global") /\ LET ev == T[l]  r == RandomOneShot(DrawOf(ev, 1), ev.n) IN
+  Step(objs, <<IF ev.via_fetch = 1 THEN -7 ELSE r.ret, r.out, 1, 1>>, <<ev.ret, ev.out, Len(ev.draws), ev.guard>>)
+TrPrngFree == IsEv("prng.free") /\ LET ev == T[l] IN Step(Del(ev.obj), <<0>>, <<ev.counter>>)
+
+PrngNext == TrPrngInit \/ TrPrngFetch \/ TrPrngFeed \/ TrPrngReseed \/ TrPrngPoke \/ TrPrngSave \/ TrPrngLoad
+            \/ TrPrngNull \/ TrPrngGlobal \/ TrPrngFree
 (* C14/C17: C++ cipher objects                                             *)
 CppSet(ev, o) == Put(ev.obj, [kind |-> "cpp", cls |-> o.cls, key |-> o.key, nonce |-> o.nonce])
 CppO(ev) == [cls |-> objs[ev.obj].cls, key |-> objs[ev.obj].key, nonce |-> objs[ev.obj].nonce]
